@@ -4,7 +4,7 @@ set -u
 patch="$1"; shift
 cd /repo || exit 2
 if ! git diff --quiet; then echo "/repo is dirty, refusing"; exit 2; fi
-if ! git apply --3way "$patch" 2>/tmp/apply.err && ! patch -p1 --no-backup-if-mismatch < "$patch" >/tmp/apply.err 2>&1; then echo "PATCH DOES NOT APPLY"; cat /tmp/apply.err; git checkout -- . ; git reset -q; exit 3; fi
+if ! git apply --3way "$patch" 2>/tmp/apply.err && ! patch -p1 --no-backup-if-mismatch < "$patch" >/tmp/apply.err 2>&1; then echo "PATCH DOES NOT APPLY"; cat /tmp/apply.err; git reset -q --hard HEAD; git clean -fdq; exit 3; fi
 git reset -q
 rm -rf /tmp/evidence_backup; cp -r /verif/evidence /tmp/evidence_backup
 for c in "$@"; do
